@@ -2,6 +2,7 @@ SPECIFICATION MCSpec
 CONSTANTS
   GBits = 2
   Ops = {"multiply", "screen", "overlay", "darken", "lighten", "dodge", "burn", "hard_light", "soft_light", "difference", "exclusion", "over", "inside", "outside", "atop", "xor", "plus", "premul"}
+  EnumStep = 1
   AssertPlusRange = "no"
 INVARIANT Inv
 CHECK_DEADLOCK TRUE
